@@ -92,6 +92,13 @@ TIE / coverage: generated graphs (numeric: Relu/Neg/Identity/Add/Mul/Clip with o
   default), read directly by region nodes and inside bodies like any other value; random cuts leave it unlisted
   70 % of the time. Corpus 05 is the hand-written instance. Caught with a concrete input by the generator alone.
 
+  const_value vs initializer (round 4, seeded change C18-r4m2: `const_value is not None` used instead of
+  is_initializer()): on half of the graphs 25 % of the non-initializer values (graph inputs, node outputs, any depth)
+  carry a const_value, and on 20 % of the structural graphs half of the initializers carry none. The model and the
+  oracle ignore const_value: an uncovered graph input with a constant must still raise, a node output with a
+  constant must not show up among the result's initializers (result initializers are mapped back to value ids
+  through all top-level names, so a spurious one is visible). Corpus 06.
+
 ORACLE readings (weaker where ambiguous): domain = well-formed sources (topologically sorted, every value
   defined once in an enclosing scope, unique non-empty names, view nodes in source order, boundary
   references denoting top-level values known to the source); "raises" = any exception; initializers of
@@ -329,6 +336,16 @@ def gen_spec(rng: random.Random, mode: str = "numeric", size: int = 1, malform: 
             if la and b["nodes"]:
                 b["nodes"][-1]["ins"].append(rng.choice(la))
                 flags.append("scope-leak")
+    # const_value on values that are NOT initializers (graph inputs, node outputs at any depth) and — structural
+    # graphs only, they cannot be serialised for evaluation — initializers WITHOUT const_value: irrelevant to the cut
+    if rng.random() < 0.5:
+        for k, info in g.values.items():
+            if not info["init"] and not info["bool"] and k not in g.detached and rng.random() < 0.25:
+                info["const"] = True
+    if mode == "structural" and rng.random() < 0.2:
+        for k, info in g.values.items():
+            if info["init"] and rng.random() < 0.5:
+                info["noconst"] = True
     # shadowing (well-formed for the IR, in the oracle's domain): a value defined inside a body of node i gets
     # the name of a value of the main graph produced by a LATER node, so that a recursive name table would
     # meet the inner value first; boundary names must still denote the values of the graph being extracted
@@ -363,7 +380,9 @@ class Built:
                 v = ir.Value(name=info["name"], type=B, shape=ir.Shape([]))
             else:
                 v = ir.Value(name=info["name"], type=F, shape=ir.Shape([2]))
-            if info["init"]:
+            if (info["init"] and not info.get("noconst")) or info.get("const"):
+                # const_value is set on initializers (unless "noconst") and, independently, on some graph inputs
+                # and node outputs ("const"): being an initializer is graph membership, not "has a constant"
                 arr = np.array([(vid * 7) % 5 - 1.5, (vid * 3) % 4 + 0.25], dtype=np.float32)
                 v.const_value = ir.tensor(arr, name=info["name"])
             self.vals[vid] = v
@@ -476,7 +495,13 @@ def run_extract(B: Built, src: dict, inputs: list, outputs: list, want_graph: bo
     except Exception as e:  # noqa: BLE001
         return {"kind": "raise", "exn": common.exn_name(e), "msg": str(e)[:160]}
     nid_by_name = {n.name: k for k, n in B.nodes.items()}
+    # names of the result's initializers -> value ids: the source's initializers first, then any top-level value
+    # (an initializer of the result that is not one of the source is reported under its own id)
     vid_by_name = {}
+    for k in top_values(B.spec):
+        nm = B.vals[k].name
+        if nm and nm not in vid_by_name:
+            vid_by_name[nm] = k
     for k, v in B.vals.items():
         if v.is_initializer():
             vid_by_name[v.name] = k
